@@ -315,11 +315,14 @@ schedule (the English bounds lateness only); (2) "again at further 10 percent st
 follow-up is due 10 % of the TTL after the previous query and is at most `minDelay` late with respect to that (`Chain`); measured
 against the absolute 85 % / 95 % instants the lateness of the earlier queries adds up. -/
 
-/-- hypothesis "every pointer update of instance `a` in `evs` carries the type `n`" (an instance name determines its type: it ends
-with it; the kept entry keeps the `name` it was created with) -/
+/-- hypothesis "every pointer update of instance `a` in `evs` carries the type `n`" (the kept entry keeps the `name` it was created
+with; an instance name does NOT determine the owner name — a subtype pointer names the same instance: finding
+`C10:alias-shared-by-two-types`) -/
 def C10.SameType (a n : String) (evs : List (Int × Op)) : Prop := ∀ e ∈ evs, e.2.named a n = true
 
-/-- hypothesis of the one-delay bound (exactly the complement of the finding's signature): when the refresh arrives, the instance's
+/-- hypothesis of the one-delay bound — a sufficient condition, broader than the complement of the finding's signature (it also
+excludes an entry later than `w + minDelay`, which is cancelled and re-made at `w`, and a kept later entry that no other pass
+delays; in both the one-delay bound holds, the first by `C10_refreshed_chain` and arithmetic): when the refresh arrives, the instance's
 live entry — if it has one — is not scheduled *after* the new 75 % time `w` -/
 def C10.NotKeptLater (c : Cfg) (tS : Int) (hist : List (Int × Op)) (a : String) (w : Int) : Prop :=
   ∀ s2 o2 cur, exec c {} tS hist = some (s2, o2) → current a s2.heap = some cur → cur.when ≤ w
@@ -411,7 +414,7 @@ def C10_refreshed_one_delay_full : Prop :=
 open C10 in
 /-- **`_partial`** — holds when the instance's entry, at the moment the refresh arrives, is not scheduled after the new 75 % time
 (`NotKeptLater`; in particular for an instance without an entry, and whenever the refreshed record's 75 % time is not earlier than
-the old schedule — the usual refresh with an equal or longer TTL).  What is missing is exactly the finding
+the old schedule — the usual refresh with an equal or longer TTL).  Not covered, among other cases, the finding
 `C10:refresh-late-kept-schedule`: entry kept at `k ∈ (w, w + minDelay]`, another pass inside `(k − minDelay, k)`. -/
 theorem C10_refreshed_one_delay_partial (types : List String) (minDelay : Nat) (qtype : Option Bool) (tS : Int) (pre0 : List (Int × Op))
     (t0 : Int) (d : Nat) (pre : List (Int × Op)) (t : Int) (a n : String) (ttl : Nat) (cr : Int) (evs : List (Int × Op))
@@ -508,7 +511,9 @@ open C10 in
 /-- **`_refuted`** (finding `C10:alias-shared-by-two-types`; the scheduler keys its entries by the instance name alone, and a
 browser of `_x` is also concerned by the subtype pointer `_p._sub._x → a`): instance `a` is learned under `_x` at 20 s and under the
 subtype `_p` at 25 s; the second update *keeps* the first record's entry, question name included, so the passes at 863.75 s and
-976.25 s ask `_x` and the subtype record is never asked for.  `SameType` is exactly the hypothesis that excludes this. -/
+976.25 s ask `_x` and the subtype record is never asked for.  `SameType` is the hypothesis that excludes this (a sufficient
+condition, broader than the finding: it also excludes an earlier update under another type whose entry has long been served or
+cancelled). -/
 theorem C10_refreshed_chain_any_type_refuted : ¬ C10_refreshed_chain_any_type_full := by
   intro h
   have hs : (exec (browserCfg ["_x"] 10000 none) {} 0
